@@ -944,10 +944,28 @@ shift(bitint383_t cand[static 3U], const unsigned int y, echs_shift_t sh)
 }
 
 
+static echs_instant_t
+scale_until(rrulsp_t rr)
+{
+/* UNTIL is a gregorian instant, candidates are compared in the rule's scale */
+	echs_instant_t u = rr->until;
+
+	if (UNLIKELY(rr->scale != SCALE_GREGORIAN && u.u < -1ULL)) {
+		u = echs_instant_detach_scale(
+			echs_instant_rescale(u, rr->scale));
+		if (UNLIKELY(echs_nul_instant_p(u))) {
+			/* beyond the scale, so is everything else */
+			u = rr->until;
+		}
+	}
+	return u;
+}
+
 size_t
 rrul_fill_yly(echs_instant_t *restrict tgt, size_t nti, rrulsp_t rr)
 {
 	const echs_scale_t srcsca = rr->scale;
+	const echs_instant_t until = scale_until(rr);
 	const echs_instant_t protr = echs_instant_rescale(*tgt, srcsca);
 	const echs_instant_t proto = echs_instant_detach_scale(protr);
 	unsigned int y = proto.y;
@@ -1101,7 +1119,7 @@ rrul_fill_yly(echs_instant_t *restrict tgt, size_t nti, rrulsp_t rr)
 						.ms = proto.ms,
 					};
 
-					if (UNLIKELY(echs_instant_lt_p(rr->until, x))) {
+					if (UNLIKELY(echs_instant_lt_p(until, x))) {
 						goto fin;
 					}
 					if (UNLIKELY(echs_instant_lt_p(x, proto))) {
@@ -1129,6 +1147,7 @@ size_t
 rrul_fill_mly(echs_instant_t *restrict tgt, size_t nti, rrulsp_t rr)
 {
 	const echs_scale_t srcsca = rr->scale;
+	const echs_instant_t until = scale_until(rr);
 	const echs_instant_t protr = echs_instant_rescale(*tgt, srcsca);
 	const echs_instant_t proto = echs_instant_detach_scale(protr);
 	unsigned int y = proto.y;
@@ -1297,7 +1316,7 @@ rrul_fill_mly(echs_instant_t *restrict tgt, size_t nti, rrulsp_t rr)
 						.ms = proto.ms,
 					};
 
-					if (UNLIKELY(echs_instant_lt_p(rr->until, x))) {
+					if (UNLIKELY(echs_instant_lt_p(until, x))) {
 						goto fin;
 					}
 					if (UNLIKELY(echs_instant_lt_p(x, proto))) {
@@ -1325,6 +1344,7 @@ size_t
 rrul_fill_wly(echs_instant_t *restrict tgt, size_t nti, rrulsp_t rr)
 {
 	const echs_scale_t srcsca = rr->scale;
+	const echs_instant_t until = scale_until(rr);
 	const echs_instant_t protr = echs_instant_rescale(*tgt, srcsca);
 	const echs_instant_t proto = echs_instant_detach_scale(protr);
 	unsigned int y = proto.y;
@@ -1462,7 +1482,7 @@ rrul_fill_wly(echs_instant_t *restrict tgt, size_t nti, rrulsp_t rr)
 				if (UNLIKELY(echs_instant_lt_p(x, proto))) {
 					continue;
 				}
-				if (UNLIKELY(echs_instant_lt_p(rr->until, x))) {
+				if (UNLIKELY(echs_instant_lt_p(until, x))) {
 					goto fin;
 				} else if (!(m_mask & (1U << this_m))) {
 					/* skip this day, the rest of the week
@@ -1488,6 +1508,7 @@ size_t
 rrul_fill_dly(echs_instant_t *restrict tgt, size_t nti, rrulsp_t rr)
 {
 	const echs_scale_t srcsca = rr->scale;
+	const echs_instant_t until = scale_until(rr);
 	const echs_instant_t protr = echs_instant_rescale(*tgt, srcsca);
 	const echs_instant_t proto = echs_instant_detach_scale(protr);
 	unsigned int y = proto.y;
@@ -1617,7 +1638,7 @@ rrul_fill_dly(echs_instant_t *restrict tgt, size_t nti, rrulsp_t rr)
 			};
 			if (UNLIKELY(echs_instant_lt_p(x, proto))) {
 				continue;
-			} else if (UNLIKELY(echs_instant_lt_p(rr->until, x))) {
+			} else if (UNLIKELY(echs_instant_lt_p(until, x))) {
 				goto fin;
 			} else if (UNLIKELY(res >= nti)) {
 				/* that's all they asked for */
